@@ -2,13 +2,22 @@ use minimal_lexical::number::Number;
 use minimal_lexical::parse::verif_parse_number;
 
 pub fn any_digits<const N: usize>() -> [u8; N] {
+    // thorough tier: every digit symbolic.  quick tier (instances::FULL_SYMBOLIC == false): the first three and the
+    // last five digits of each part are symbolic, the ones in between are an arbitrary but fixed non-zero digit
+    // (the digit loops treat all positions uniformly; what matters for the cut logic are counts and the ends)
     let a: [u8; N] = kani::any();
+    let mid: u8 = kani::any();
+    kani::assume(b'1' <= mid && mid <= b'9');
+    let mut out = a;
     let mut i = 0;
     while i < N {
         kani::assume(b'0' <= a[i] && a[i] <= b'9');
+        if !crate::instances::FULL_SYMBOLIC && i >= 3 && i + 5 < N {
+            out[i] = mid;
+        }
         i += 1;
     }
-    a
+    out
 }
 
 /// Reference: one pass over integer ++ fraction, written from the contract.
@@ -39,11 +48,22 @@ pub fn reference<const NI: usize, const NF: usize>(int: &[u8; NI], frac: &[u8; N
 }
 
 /// O-PN on slice iterators.
-pub fn contract<const NI: usize, const NF: usize>() {
+pub fn contract<const NI: usize, const NF: usize, const Z: usize>() {
     let int: [u8; NI] = any_digits();
-    let frac: [u8; NF] = any_digits();
+    let mut frac: [u8; NF] = any_digits();
     if NI > 0 {
         kani::assume(int[0] != b'0'); // documented precondition: no leading zeros in the integer part
+    } else {
+        // empty integer part: exactly Z leading fraction zeros (a symbolic count makes the position where the second
+        // digit loop starts symbolic, which CBMC cannot finish; Z is enumerated instead)
+        let mut z = 0;
+        while z < Z && z < NF {
+            frac[z] = b'0';
+            z += 1;
+        }
+        if Z < NF {
+            kani::assume(frac[Z] != b'0');
+        }
     }
     let e: i32 = kani::any();
     let num: Number = verif_parse_number(int.iter(), frac.iter(), e);
@@ -53,7 +73,7 @@ pub fn contract<const NI: usize, const NF: usize>() {
     assert!(num.many_digits == t);
     assert!(num.mantissa < 10_000_000_000_000_000_000u64);
     kani::cover!(t, "opt:digits truncated");
-    kani::cover!(NI == 0 && NF > 0 && frac[0] == b'0' && m != 0, "opt:leading fraction zeros skipped");
+    kani::cover!(NI == 0 && Z > 0 && m != 0, "opt:leading fraction zeros skipped");
 }
 
 /// O-PN relational (C10): the same digit sequence split at two different points, exponent compensated,
@@ -140,27 +160,38 @@ impl<'a> Iterator for Cursor<'a> {
     }
 }
 
-pub fn iter_shapes<const NI: usize, const NF: usize, const NI2: usize>() {
-    // NI2 = NI + 1: the integer digits with one sentinel byte inserted, removed again by a filter
+fn iter_inputs<const NI: usize, const NF: usize>() -> ([u8; NI], [u8; NF], i32) {
     let int: [u8; NI] = any_digits();
     let frac: [u8; NF] = any_digits();
     if NI > 0 {
         kani::assume(int[0] != b'0');
     }
-    let e: i32 = kani::any();
+    (int, frac, kani::any())
+}
+
+/// (a) custom iterator with its own cursor and the default size_hint
+pub fn iter_cursor<const NI: usize, const NF: usize>() {
+    let (int, frac, e) = iter_inputs::<NI, NF>();
     let base = verif_parse_number(int.iter(), frac.iter(), e);
-    // (a) custom iterator with its own cursor and the default size_hint
     let c = verif_parse_number(Cursor { data: &int, pos: 0 }, Cursor { data: &frac, pos: 0 }, e);
     assert!(c == base);
-    // (b) chain of two halves
-    let k: usize = kani::any();
-    kani::assume(k <= NI);
+}
+
+/// (b) chain of two halves
+pub fn iter_chain<const NI: usize, const NF: usize>() {
+    let (int, frac, e) = iter_inputs::<NI, NF>();
+    let base = verif_parse_number(int.iter(), frac.iter(), e);
+    let k: usize = NI / 2; // concrete split point (a symbolic one multiplies the unrolled loops)
     let ch = verif_parse_number(int[..k].iter().chain(int[k..].iter()), frac.iter(), e);
     assert!(ch == base);
-    // (c) filter dropping a sentinel
+}
+
+/// (c) filter dropping a sentinel byte inserted into the integer digits (NI2 = NI + 1)
+pub fn iter_filter<const NI: usize, const NF: usize, const NI2: usize>() {
+    let (int, frac, e) = iter_inputs::<NI, NF>();
+    let base = verif_parse_number(int.iter(), frac.iter(), e);
     let mut with = [b'_'; NI2];
-    let p: usize = kani::any();
-    kani::assume(p <= NI);
+    let p: usize = NI / 3;
     let mut i = 0;
     while i < NI {
         with[if i < p { i } else { i + 1 }] = int[i];
